@@ -251,6 +251,16 @@ def construct_asts():
             out.append(("path", None, True, [DOS, ("attribute", at, [])] + tail))
             out.append(("path", None, True, [DOS, ("child", ("*",), []), ("attribute", at, [("num", "1")])] + tail))
             out.append(("path", None, True, [DOS, ("child", ("*",), [("path", None, False, [("attribute", at, [])] + tail)])]))
+    # `//` directly in front of `.` (and `..`): `x//.` is x/descendant-or-self::node()/self::node() - all of them, not x itself
+    # (round-7 seed C08-J dropped a `.` step together with the `//` in front of it)
+    SELF, PARENT = ("self", ("node",), []), ("parent", ("node",), [])
+    for head in ([("child", ("name", "r"), []), ("child", ("name", "a"), [])], [("child", ("name", "r"), [])],
+                 [DOS, ("child", ("name", "s"), [])], [("child", ("name", "r"), []), ("child", ("*",), [("num", "1")])]):
+        out.append(("path", None, True, head + [DOS, SELF]))
+        out.append(("path", None, True, head + [DOS, SELF, ("child", ("name", "b"), [])]))
+        out.append(("path", None, True, head + [DOS, PARENT]))
+        out.append(("path", None, True, head + [SELF, DOS, ("child", ("*",), [])]))
+        out.append(("path", ("filter", ("path", None, True, head), [("num", "1")]), False, [DOS, SELF]))
     # numeric predicates whose number depends on the context node: SEVERAL nodes of one step match their own position
     # (`[E]` = `[position() = E]` for each node separately; round-6 seed C08-G stopped at the first match)
     prevs = ("bin", "+", ("call", "count", [("path", None, False, [("preceding-sibling", ("*",), [])])]), ("num", "1"))
@@ -457,6 +467,7 @@ def recovery_after_refusals(chk, lim, fams):
 HARD_DOCS = [
     "<!DOCTYPE r [<!ENTITY e '&f;'><!ENTITY f '&e;'>]><r a='&e;' b='2'>&e;<k>1</k></r>",
     "<!DOCTYPE r [<!ENTITY e 'x&e;'>]><r a='1&e;' b='2'><k>&e;</k></r>",
+    "<r a='\uff11\uff12\uff10' b='\u0661\u0662\u0663'><k>\u00b2</k>\u00bd<k>1e3</k><k>+1</k><k>inf</k></r>",
     "<r xml:lang='\u65e5\u672c\u8a9e-JP' a='1' b='\u00e9'><p xml:lang='\u00e9'>t<k>1</k></p><q xml:lang=''/><p xml:lang='e\u0301-x'>u</p><p xml:lang='\U0001d4b3'/></r>",
 ]
 
@@ -596,6 +607,48 @@ def run_c06(chk):
             if out in BAD:
                 bad.append(("<r><a><a><a/></a></a></r>", "hostile:%s:%d" % (name, k), e if len(e) < 400 else "family %s(%d) of xp_families()" % (name, k), out))
     chk.cov["hostile_sizes"] = hostile
+    # ---- documents EDITED through the DOM, in the text-expanded view xq / xe read: states no parser produces (a Text node without
+    # characters, runs cut and joined, detached pieces) queried with a battery that walks every axis over them: still a value or
+    # an error, never a crash (round-7 seed C06-J: a run made of empty items only had no first item to ask)
+    from gen import domgen as D
+    from props import domchecks as DC
+    import re as _re2
+    ecases = DC.histories(rng, 150 if thorough else 50, 8, 0.15)
+    edocs = ["<root><a/>x<b/>y</root>", "<r>t</r>", "<r><a>1</a><![CDATA[c]]>&amp;<b/></r>"]
+    einit = lib.run_lines(h0, [lib.req("domx", t, "count(//*)") for t in edocs], timeout=120, per_line_resume=True)
+    for t, a in zip(edocs, einit):
+        dump0 = D.split_records(a)[0].get("dump", "")
+        nh = 1 + max([int(x) for x in _re2.findall(r"h(\d+):", dump0)] or [0])
+        texts_ = [int(x) for x in _re2.findall(r"h(\d+):M\(", dump0)]
+        elems_ = [int(x) for x in _re2.findall(r"h(\d+):E\(", dump0)]
+        for el in elems_:
+            ecases.append((t, ["ct:", "ap:h%d:h%d" % (el, nh)]))
+            ecases.append((t, ["ct:", "ib:h%d:h%d:h%d" % (elems_[0], nh, el)]))
+            ecases.append((t, ["ct:", "ct:", "ap:h%d:h%d" % (el, nh), "ap:h%d:h%d" % (el, nh + 1)]))
+        for tx in texts_:
+            ecases.append((t, ["sd:h%d:" % tx]))
+            ecases.append((t, ["dd:h%d:0:99" % tx]))
+            ecases.append((t, ["st:h%d:0" % tx]))
+    EQ = DC.battery("//text();//node();//*/following-sibling::node();//*/preceding-sibling::node();//text()/following::node();"
+                    "//node()/preceding::text();string(/*);count(//text()[. = '']);//text()/..;//*[text()]")
+    eout = lib.run_lines(h0, [lib.req("domx", t, EQ, *ops) for t, ops in ecases], timeout=900, per_line_resume=True)
+    for (t, ops), o in zip(ecases, eout):
+        chk.count(["edited-expanded", t] + ops, nontrivial=True)
+        recs = D.split_records(o) if o not in BAD else []
+        worst = o if o in BAD else None
+        for i_, r in enumerate(recs):
+            if r["status"] in BAD:
+                # the factories create_text_node / create_comment / create_cdata_section panic on data they cannot hold: the
+                # recorded finding factory-panic of C13 / C15, not a matter of evaluating a query
+                if not (r["status"] == "panic" and i_ > 0 and ops[i_ - 1].split(":")[0] in ("ct", "cc", "cd")):
+                    worst = r["status"]
+                break
+            if "panic" in (r["flags"].get("q") or ""):
+                worst = "panic"
+                break
+        if worst:
+            bad.append((t, "edited-expanded", "dom history (text-expanded view): " + " ".join(ops) + "  then the query battery", worst))
+    chk.cov["edited_documents_queried"] = len(ecases)
     # ---- a refusal leaves nothing behind (shared with C08: redundant parentheses stay harmless after refusals)
     for rdoc_, label_, e_, msg_ in recovery_after_refusals(chk, lim, fams):
         bad.append((rdoc_, label_, e_, msg_))
@@ -732,6 +785,18 @@ def run_c07(chk):
             if q is not None and q not in ("ok", "skip") and "SIDE-EFFECT" not in q:
                 mfail.append((t_, "dom history: " + " ".join(ops_[:i]), "a node-set on the edited document differs from the same on a "
                               "fresh parse of its serialization", q[:600]))
+                break
+    # ... and namespace nodes after a declaration came to stand on an element as an attribute NODE (createAttribute, value, query,
+    # setAttributeNode): each namespace node once, the same set a fresh parse gives
+    nsc_ = DC.ns_node_cases(DC.NSDOCS_)
+    nso_ = lib.run_lines(lib.build_harness(), [lib.req("dom", t_, DC.NSQ, *ops_) for t_, ops_ in nsc_], timeout=900, per_line_resume=True)
+    for (t_, ops_), a in zip(nsc_, nso_):
+        for i, x in enumerate(D.split_records(a)):
+            chk.count(["edited-ns", t_] + ops_[:i], nontrivial=i > 0 and x["status"].startswith("ok"))
+            q = x["flags"].get("q")
+            if q is not None and q not in ("ok", "skip") and "SIDE-EFFECT" not in q:
+                mfail.append((t_, "dom history: " + " ".join(ops_[:i]), "a node-set of namespace nodes on the edited document differs from "
+                              "the same on a fresh parse of its serialization (a node lost or merged)", q[:600]))
                 break
     # node-sets of DIFFERENT node kinds united: commutative, and nothing is lost - count(A|B) = count(A) + count(B) when the
     # kinds differ (an element and its own namespace or attribute nodes are distinct nodes)
@@ -1034,6 +1099,14 @@ def run_c10(chk):
                "count(//*[not(namespace-uri())])", "//y/a", "//w/a", "//z/a", "//x//a", "//@p:x", "//@q:x", "//@x", "//*[@p:x]", "//a/a/a/a",
                "namespace-uri((//*)[last()])", "namespace-uri((//*)[last()-1])", "namespace-uri(//*[@id])", "name(//*[@id]/..)",
                "count(//*[local-name()='a'][namespace-uri()='urn:u1'])", "//child::a", "//self::a", "//descendant::a[1]"]
+    # a document nested to the parser's limit: the deepest elements inherit the declarations of the root and the reserved `xml`
+    # binding like every other element (round-7 seed C10-I walked the ancestors with a bound one short of the limit)
+    lim_ = lib.XML_CONSTS.get("MAX_ELEMENT_DEPTH") or 128
+    for n_ in (lim_, lim_ - 1):
+        SCOPE_DOCS.append("<r xmlns:p='urn:u1' xmlns='urn:u2' xml:lang='en'>" + "<a>" * (n_ - 3) +
+                          "<p:a xml:lang='de' p:x='1'><a id='1' xml:space='preserve'/></p:a>" + "</a>" * (n_ - 3) + "</r>")
+    SCOPE_Q += ["//@xml:lang", "//@xml:space", "count(//@xml:*)", "namespace-uri((//@xml:space)[last()])", "//*[lang('de')]",
+                "name((//*)[last()]/namespace::xml)", "string((//*)[last()]/namespace::p)", "(//*)[last()]/@xml:space"]
     for sd in SCOPE_DOCS:
         for bnd in ("=urn:u1;p=urn:u1;q=urn:u2", "=urn:u2;p=urn:u1;q=urn:u2", XP.BINDINGS, "=urn:u1;p=urn:u2;q=urn:u1"):
             qs_df.append((sd, bnd, SCOPE_Q))
@@ -1289,6 +1362,21 @@ def run_c19(chk):
             q = rec["flags"].get("q", "")
             if "SIDE-EFFECT" in q:
                 mfail.append((t, "dom history: " + " ".join(ops[:i]), "evaluating queries changed the (edited) document", q[:600]))
+                break
+    # ... and what an earlier query computed must not be what a later one answers with after the document changed: namespace
+    # declarations set and removed on ancestors between queries that resolve names below them (round-7 seed C19-I kept each
+    # element's in-scope namespaces from the first query on)
+    nsh = DC.ns_histories(rng, 150 if thorough else 60, DC.NSDOCS_) + DC.ns_node_cases(DC.NSDOCS_)[:20]
+    nso = lib.run_lines(h, [lib.req("dom", t, DC.NSQ + ";//p:*;//q:*;count(//*[name() != local-name()]);//@p:*", *ops) for t, ops in nsh],
+                        timeout=900, per_line_resume=True)
+    for (t, ops), a in zip(nsh, nso):
+        for i, rec in enumerate(D.split_records(a)):
+            edited_states += 1
+            chk.count(["ns-edited", t] + ops[:i], nontrivial=i > 0 and rec["status"].startswith("ok"))
+            q = rec["flags"].get("q", "")
+            if q not in ("ok", "skip", "") and q is not None:
+                mfail.append((t, "dom history: " + " ".join(ops[:i]), "after an edit a query answers with what an earlier query had computed "
+                              "(the edited document and a fresh parse of its serialization give different answers)", q[:600]))
                 break
     chk.cov["edited_document_states_queried"] = edited_states
     chk.cov["sequences_with_a_failing_query"] = with_failure
